@@ -298,6 +298,7 @@ func c15Units(tier string, seed int64) []Unit {
 			})
 		}})
 	}
+	units = append(units, siblingsUnit("C15"))
 	nfree := 60
 	if !quick {
 		nfree = 600
